@@ -329,6 +329,17 @@ def vec(*args):
     return concat(iters)
 
 
+def check_objective(obj, sign):
+    """
+    Raise an error if a concave expression is minimized or a convex
+    expression is maximized.
+    """
+
+    if isinstance(obj, (Convex, PiecewiseConvex)):
+        if obj.sign * sign < 0:
+            raise ValueError('Nonconvex objective function.')
+
+
 class Model:
     """
     The Model class creates an LP model object.
@@ -450,6 +461,7 @@ class Model:
                 if obj.size > 1:
                     raise ValueError('Incorrect function dimension.')
 
+        check_objective(obj, 1)
         self.obj = obj
         self.sign = 1
         self.pupdate = True
@@ -481,6 +493,7 @@ class Model:
                 if obj.size > 1:
                     raise ValueError('Incorrect function dimension.')
 
+        check_objective(obj, -1)
         self.obj = obj
         self.sign = - 1
         self.pupdate = True
